@@ -904,36 +904,57 @@ impl Kind for Tagged {
     }
 }
 
-/// The tagged kind again with wide payloads: a 72-byte key and an 80-byte value (a pair of 152
-/// bytes, a `Set` element of 72), plain `Copy` data, equal keys distinguishable by their tag.
+/// The tagged kind again with wide payloads: a key of about 80 bytes and an 80-byte value (a pair
+/// of 160 bytes), plain `Copy` data, equal keys distinguishable by their tag.
 /// Code that treats pairs differently above some byte size (move as a whole up to a cache line,
 /// update in place beyond) is visible to the identity oracles here.
+/// The key is an *enum* whose equality crosses variants: which variant an object is depends on
+/// the parity of its tag, equality looks at `raw` only. (A `mem::discriminant` pre-check before
+/// `==` is wrong for such keys, e.g. `Cow::Borrowed("a") == Cow::Owned("a")`.)
 #[derive(Clone, Copy)]
-pub struct FK {
-    pub raw: u8,
-    pub tag: u32,
-    pub pad: [u64; 8],
+pub enum FK {
+    Even { raw: u8, tag: u32, pad: [u64; 8] },
+    Odd { pad: [u64; 8], tag: u32, raw: u8 },
+}
+impl FK {
+    pub fn raw(&self) -> u8 {
+        match self {
+            FK::Even { raw, .. } | FK::Odd { raw, .. } => *raw,
+        }
+    }
+    pub fn tag(&self) -> u32 {
+        match self {
+            FK::Even { tag, .. } | FK::Odd { tag, .. } => *tag,
+        }
+    }
+    pub fn pad(&self) -> &[u64; 8] {
+        match self {
+            FK::Even { pad, .. } | FK::Odd { pad, .. } => pad,
+        }
+    }
 }
 impl PartialEq for FK {
     fn eq(&self, o: &FK) -> bool {
         crate::tl::tick(crate::tl::Cb::KeyEq);
-        self.raw == o.raw
+        self.raw() == o.raw()
     }
 }
 impl Eq for FK {}
 impl Borrow<u8> for FK {
     fn borrow(&self) -> &u8 {
-        &self.raw
+        match self {
+            FK::Even { raw, .. } | FK::Odd { raw, .. } => raw,
+        }
     }
 }
 impl fmt::Debug for FK {
     fn fmt(&self, f: &mut fmt::Formatter<'_>) -> fmt::Result {
-        write!(f, "G{}", self.raw)
+        write!(f, "G{}", self.raw())
     }
 }
 impl fmt::Display for FK {
     fn fmt(&self, f: &mut fmt::Formatter<'_>) -> fmt::Result {
-        write!(f, "G{}", self.raw)
+        write!(f, "G{}", self.raw())
     }
 }
 #[derive(Clone, Copy)]
@@ -973,7 +994,13 @@ impl Kind for FatTag {
     const NOALLOC: bool = true;
     const IDENT: bool = true;
     fn key(raw: u8) -> FK {
-        FK { raw, tag: next_tag(), pad: [raw as u64 * 0x0101_0101_0101_0101; 8] }
+        let tag = next_tag();
+        let pad = [raw as u64 * 0x0101_0101_0101_0101; 8];
+        if tag % 2 == 0 {
+            FK::Even { raw, tag, pad }
+        } else {
+            FK::Odd { pad, tag, raw }
+        }
     }
     fn qo(raw: u8) -> u8 {
         raw
@@ -982,13 +1009,13 @@ impl Kind for FatTag {
         FV { val: x, tag: next_tag(), pad: [x as u64; 9] }
     }
     fn kraw(k: &FK) -> u8 {
-        k.raw
+        k.raw()
     }
     fn kid(k: &FK) -> u32 {
-        k.tag
+        k.tag()
     }
     fn klive(k: &FK) -> bool {
-        k.pad == [k.raw as u64 * 0x0101_0101_0101_0101; 8]
+        *k.pad() == [k.raw() as u64 * 0x0101_0101_0101_0101; 8]
     }
     fn vval(v: &FV) -> u32 {
         v.val
